@@ -10,7 +10,7 @@ theorem rx_init : RX Store.init := by
 
 theorem rx_stepFull {s : Store} (op : Op) (hx : RX s) : RX (stepFull s op).1 := by
   cases op with
-  | addProxy a n0 n1 h => exact rx_addProxy a n0 n1 h hx
+  | addProxy a n0 n1 h i => exact rx_addProxy a n0 n1 h i hx
   | removeProxy a => exact rx_removeProxy a hx
   | addCluster n k c => exact rx_addCluster n k defaultConfig c hx
   | removeCluster n => exact rx_removeCluster n hx
@@ -28,6 +28,10 @@ theorem rx_stepFull {s : Store} (op : Op) (hx : RX s) : RX (stepFull s op).1 := 
   | bumpAll e => exact rx_forceBumpAllEpoch e hx
   | recover e => exact rx_recoverEpoch e hx
   | addFailure a r t => exact rx_addFailure a r t hx
+  | setOrdered =>
+    -- mode selection on a fresh store touches neither proxies nor clusters
+    exact (show SkelEq s.setOrdered s from
+      ⟨by unfold Store.setOrdered; split <;> rfl, by unfold Store.setOrdered; split <;> rfl⟩).rx hx
 
 theorem rx_step {s : Store} (op : Op) (hx : RX s) : RX (step s op) := by
   have := rx_stepFull op hx
@@ -86,11 +90,20 @@ theorem addNodesResult_findCluster {s : Store} {n : String} {cl : Cluster} {new 
   exact findCluster_setCluster (s := s)
     (cl' := { cl with chunks := cl.chunks ++ new, epoch := s.globalEpoch + 1 }) hf hn
 
-theorem NewChunks.hosts {s : Store} {new : List Chunk} (h : NewChunks s new) :
+/-- normal mode only: ordered mode allocates by proxy index, whatever the hosts
+(`NewChunks.pool` is the mode-independent part) -/
+theorem NewChunks.hosts {s : Store} {new : List Chunk} (h : NewChunks s new) (ho : s.ordered = false) :
     ∀ ch ∈ new, ch.host0 ≠ ch.host1 ∧
       ∃ p0 ∈ s.freeProxies, ∃ p1 ∈ s.freeProxies, ch.proxy0 = p0.addr ∧ ch.proxy1 = p1.addr := by
   intro ch hch
   obtain ⟨p0, hp0, p1, hp1, e0, _, _, _, e1, _, _, _, hh⟩ := h.fromPool ch hch
-  exact ⟨hh, p0, hp0, p1, hp1, e0, e1⟩
+  exact ⟨hh ho, p0, hp0, p1, hp1, e0, e1⟩
+
+/-- both modes: the proxies of newly allocated chunks come from the free healthy pool -/
+theorem NewChunks.pool {s : Store} {new : List Chunk} (h : NewChunks s new) :
+    ∀ ch ∈ new, ∃ p0 ∈ s.freeProxies, ∃ p1 ∈ s.freeProxies, ch.proxy0 = p0.addr ∧ ch.proxy1 = p1.addr := by
+  intro ch hch
+  obtain ⟨p0, hp0, p1, hp1, e0, _, _, _, e1, _⟩ := h.fromPool ch hch
+  exact ⟨p0, hp0, p1, hp1, e0, e1⟩
 
 end Um.Broker
